@@ -443,8 +443,8 @@ func c04Families(quick bool) []c04Fam {
 		named(sp("plain-t3", gen.NewSpace(2, 3, 2, 2, false), 0, false)),
 		named(ex("prec", gen.NewExprSpace(2, 1), 0)),
 		sp("plain", gen.NewSpace(2, 2, 2, 2, false), 0, false),
-		sp("plain-l3", gen.NewSpace(2, 2, 2, 3, false), 0, false),
-		sp("plain3", gen.NewSpace(3, 2, 2, 2, false), 20000000, false),
+		sp("plain-l3", gen.NewSpace(2, 2, 2, 3, false), 6000000, false),
+		sp("plain3", gen.NewSpace(3, 2, 2, 2, false), 6000000, false),
 		sp("plain-t3", gen.NewSpace(2, 3, 2, 2, false), 0, false),
 		sp("plain-p3", gen.NewSpace(2, 2, 3, 2, false), 0, false),
 		sp("sugar", gen.NewSpace(2, 2, 2, 2, false), 0, true),
